@@ -49,3 +49,12 @@ def pieces_from_toks(toks, layout="default", rng=None):
     if layout == "default":
         return default_layout(toks)
     raise ValueError(layout)
+
+
+def oneline_layout(toks):
+    out = []
+    for i, (k, t) in enumerate(toks):
+        out.append(tok(k, t))
+        if i + 1 < len(toks):
+            out.append(ws(" "))
+    return out
